@@ -378,6 +378,25 @@ def run(rep, facts):
         if not up or not ps or up[0] > ps[0]:
             ok = False
     (rep.ok if ok and n else rep.violation)("R19.5", "from_compact", "make_ascii_uppercase precedes parse() on all %d paths" % n if ok else "from_compact does not upper-case before looking the name up", b.loc())
+    # the lookup key is the name itself: what is parsed is the whole (folded) string that the Custom representation would store
+    whole = True
+    seen_parse = 0
+    for r in rows:
+        for c in r.calls:
+            if not c[0].endswith("::parse") and not c[0].endswith("FromStr>::from_str") and not c[0].endswith("TryFrom<&str>>::try_from"):
+                continue
+            seen_parse += 1
+            x = ir.peel(c[1][0]) if c[1] else None
+            hops = 0
+            while x is not None and x[0] == 'call' and hops < 6 and x[2] and x[1].split("::")[-1] in ("deref", "deref_mut", "as_str", "as_mut_str", "as_ref", "as_mut", "borrow", "borrow_mut"):
+                x = ir.peel(x[2][0])
+                hops += 1
+            if x is None or x[0] != 'param':
+                whole = False
+    if seen_parse:
+        (rep.ok if whole else rep.violation)("R19.5", "from_compact/lookup-key", "the interning lookup parses the whole folded name" if whole else
+                                             "the interning lookup parses a string derived from the name (trimmed, sliced, split ...), not the name itself: a name that only "
+                                             "resembles a well-known one is interned and reads back as a different string than the other constructors and VarName see", b.loc())
     ctor_sites = F.aggregates_of(facts, OWN)
     allowed_direct = {
         FROM_COMPACT: "folds first",
